@@ -69,6 +69,9 @@ def run(tier, seed, res, lean):
     fc_calls, fc_bad = suite_cache.run_falsy_cached(seed)
     for b in fc_bad[:3]:
         res.violations.append(Violation('c08-falsy-value-not-a-hit', b['msg'][:400], {'suite': 'S-CACHE/falsy', **b}))
+    lz_calls, lz_bad = suite_cache.run_lazy_values_cached(seed)
+    for b in lz_bad[:3]:
+        res.violations.append(Violation('c08-lazy-value-not-stored', b['msg'][:400], {'suite': 'S-CACHE/lazy-values', **b}))
     # the id mappings of Join / GroupBy / Split are computed once per pipeline object: reading ids again, and a call of a field for one
     # entry, do not compute them again (S-REL, memo part)
     from .. import suite_rel
